@@ -2,6 +2,8 @@ import FormulaeModel.Proofs.TermsRefine
 import FormulaeModel.Model.Scanner
 import FormulaeModel.Model.Parser
 import FormulaeModel.Generated.Tables
+import FormulaeModel.Proofs.ScannerShape
+import FormulaeModel.Properties.C01
 /-
 C02 — property theorems (statements only use Model/, Spec/C02 and Generated/).
 -/
@@ -306,5 +308,63 @@ example : refinesHyps "y ~ a*b + (0 + x | g) - a + 0 + (1 + x | g:h)" 2 3 = true
 example : refinesHyps "y[l] ~ 0 + (a + b) ** 2 / c + (1 | g) - (1 | g) + 1" 4 0 = true := by
   decide +kernel
 example : refinesHyps "x + z | g / h" 0 6 = true := by decide +kernel
+
+-- ---------------------------------------------------------------------------------------------
+-- 5. every scanned formula of the language has one of the two scanner shapes
+-- ---------------------------------------------------------------------------------------------
+/-- where the formula's `~` (if it has one) sits: at the root of the tree.  (A `~` inside
+parentheses, braces or a call argument is admitted by the grammar; such a formula is outside the
+documented language — `Lang` is false for it — which is checked per case, not proved.) -/
+def tildeAtRoot (e : Expr) (ts : List Token) : Bool :=
+  !ts.any Scanner.isTilde ||
+    (match e with
+     | .binary _ op _ => op.kind == .TILDE
+     | _ => false)
+
+/-- Full statement: the hypothesis `scannerShape` of `C02_refines_partial` holds for everything
+the front end produces — every character string the scanner accepts (with its implicit `1 +`)
+and the parser accepts, whose tree is a formula of the documented language. -/
+def C02_scanner_shape_Statement : Prop :=
+  ∀ (code : List Char) (ts : List Token) (e : Expr), Scanner.scan code true = .ok ts →
+    Parser.parse Generated.parserTable ts = .ok e → Lang e = true → scannerShape e = true
+
+/-- **`C02_scanner_shape_partial`.** The full statement for every formula without a `~` and every
+formula whose `~` is the root of the tree — no bound on length or nesting.  Proof: the scanner put
+`1 +` in front (resp. right after the only `~`); the tree is a derivation of the documented grammar
+with exactly that yield (C01); so the literal `1` is the bottom of the left spine of the tree
+(resp. of the right-hand side), directly under a `+`, and every operator above it binds at most as
+tightly as `+`: it is `+` / `-` all the way up (an additive chain starting with `1`), or a `|` on
+top (bare pipe), or a comparison on top, which is not a formula of the language. -/
+theorem C02_scanner_shape_partial (code : List Char) (ts : List Token) (e : Expr)
+    (hs : Scanner.scan code true = .ok ts) (hp : Parser.parse Generated.parserTable ts = .ok e)
+    (hl : Lang e = true) (ht : tildeAtRoot e ts = true) : scannerShape e = true := by
+  open Proofs.ScannerShape in
+  rw [Tie.parser_table] at hp
+  obtain ⟨hst, hf⟩ := (C01.C01_parse_iff Spec.C01.documentedTable (by decide) (by decide) ts e).mp hp
+  obtain ⟨ts0, hc, rfl⟩ := scan_addIntercept code ts hs
+  rcases addIntercept_cases ts0 hc with ⟨hfree, hadd⟩ | ⟨pre, tl, rest, htl, hpre, hrest, hadd⟩
+  · rw [hadd] at hf
+    exact shape_noTilde e ts0 hst hf hfree hl
+  · rw [hadd] at hf ht
+    have hany : (pre ++ tl :: Scanner.one :: Scanner.plus :: rest).any Scanner.isTilde = true := by
+      simp [htl]
+    simp only [tildeAtRoot, hany, Bool.not_true, Bool.false_or] at ht
+    have hroot : rootTilde e = true := by
+      cases e <;> first | exact ht | cases ht
+    have := shape_tilde_root e hroot hst pre rest tl hf hpre hrest
+    simp [scannerShape, this]
+
+/-- premises satisfiable on non-trivial formulas of both kinds -/
+def shapeHyps (s : String) : Bool :=
+  match Scanner.scan s.toList true with
+  | .ok ts =>
+    (match Parser.parse Generated.parserTable ts with
+     | .ok e => Lang e && tildeAtRoot e ts && decide (ts.length ≥ 12)
+     | .error _ => false)
+  | .error _ => false
+
+example : shapeHyps "y ~ a*b + (0 + x | g) - a + 0" = true := by decide +kernel
+example : shapeHyps "(a + b) ** 2 / c + (1 | g) - f(x, 2)" = true := by decide +kernel
+example : shapeHyps "x + z + w + u + v + t | g / h" = true := by decide +kernel
 
 end FormulaeModel.C02
